@@ -37,8 +37,15 @@ Definition add_env (st : list string * envmap) (entry : string) : list string * 
   | Some idx => (list_set env idx entry, m)
   | None => ((env ++ [entry])%list, emap_set (env_name entry) (length env) m)
   end.
-Definition add_multiple_env (env : list string) (entries : list string) : list string :=
+(* the generator alone: NewFromSpec on the env as it is, then AddMultipleProcessEnv *)
+Definition gen_add_multiple_env (env : list string) (entries : list string) : list string :=
   fst (fold_left add_env entries (env, env_cache env)).
+(* dropEnv (container-edits.go): the variables about to be set are removed from the OCI env first, because the generator
+   would append a second definition instead of replacing the one that is there (its cache knows whole entries only) *)
+Definition drop_env (env entries : list string) : list string :=
+  filter (fun x => negb (mem_s (env_name x) (map env_name entries))) env.
+Definition add_multiple_env (env : list string) (entries : list string) : list string :=
+  gen_add_multiple_env (drop_env env entries) entries.
 
 (* ---------------- device nodes ---------------- *)
 Definition fill_missing (host : hostfn) (d : devnode) : result devnode :=
